@@ -129,14 +129,15 @@ PROPS = {
     "C06": dict(
         level="exploration",
         floor=50,
-        builds=["harness"],
-        legs=_legs_simple("c06", 6000, 100000),
+        builds=["harness", "cli"],
+        legs=lambda tier, seed, scratch: [dict(cmd="c06", name="c06", cases=_q(tier, 6000, 100000))] + __import__("c06_tool").legs(tier, seed, scratch),
         rule=GEN_NOTE + "Even cases are bigWigs, odd cases bigBeds (overlapping / nested / identical / zero-length entries), single "
         "and two pass. Oracle: get_summary() vs per-base statistics of the input (bigBed: of the depth array, covered "
         "bases only): bases_covered exact, min/max exact, sum/sumsq exact for the exact-arithmetic value class and "
         "within 4*n*eps*sum|term| otherwise; total_items = number of sections (bigWig: sum of ceil(n_c/items_per_slot)) "
         "or entries (bigBed, also via item_count()). Don't-care: min/max when a zero-length item could take part in "
-        "them.",
+        "them. Second leg: bedgraphtobigwig / bedtobigbed then bigwiginfo / bigbedinfo on 60 (quick) / 800 (thorough) "
+        "generated texts; printed basesCovered, mean, min, max, std (and itemCount) vs a Python per-base model.",
         assumptions=["writer/reader round trip is C01/C02's business: a failed write is counted as blocked"],
     ),
     "C09": dict(
@@ -211,8 +212,8 @@ PROPS = {
         floor=50,
         builds=["harness"],
         legs=lambda tier, seed, scratch: [
-            dict(cmd="c12x", name="c12-exhaustive-call-interleavings", cases=_count("c12x-count", tier), stall_s=60),
-            dict(cmd="c12t", name="c12-threaded-stress", cases=_q(tier, 3000, 60000), stall_s=30),
+            dict(cmd="c12x", name="c12-exhaustive-call-interleavings", cases=_count("c12x-count", tier), stall_s=60, retry_budget_s=30),
+            dict(cmd="c12t", name="c12-threaded-stress", cases=_q(tier, 3000, 60000), stall_s=20, retry_budget_s=20),
             _san().miri_c12_leg(tier, seed, scratch),
         ] + ([_san().tsan_leg("c12-tsan", "c12t", 4000, tier, seed, scratch)] if tier != "quick" else []),
         rule="Leg 1 (exhaustive, seed-independent): every producer history of k writes with sizes from {0,1,3,4096,8192,70000} "
